@@ -1,6 +1,7 @@
 import Tv.GenFin
 import Tv.Thm.C20
 import Tv.Thm.C13Gen
+import Tv.Thm.C11Gen
 set_option linter.unusedSimpArgs false
 set_option linter.unusedVariables false
 /-!
@@ -233,6 +234,90 @@ theorem half_life_ok_range (corrAt : Nat → Nat → Option Rat) (len : Nat) (mp
   obtain ⟨r, hr⟩ := halfLife_no_panic _ len h
   refine ⟨r, by rw [hr]; rfl, ?_⟩
   exact halfLife_range _ len r h hr
+
+/-! ## the lag autocorrelation of the source: no oracle hypothesis left -/
+
+theorem pairs_le_aux (xs ys : List (Option Rat)) :
+    ((xs.zip ys).filterMap C11.Spec.pairOf).length ≤ (ys.filterMap fun x => x).length := by
+  induction xs generalizing ys with
+  | nil => simp
+  | cons x xs ih =>
+    cases ys with
+    | nil => simp
+    | cons y ys =>
+      have := ih ys
+      cases x <;> cases y <;>
+        simp only [List.zip_cons_cons, List.filterMap_cons, C11.Spec.pairOf, List.length_cons] <;> omega
+
+theorem pairsValid_le_valid (xs ys : List (Option Rat)) :
+    (C11.Spec.pairsValid xs ys).length ≤ (valid ys).length := pairs_le_aux xs ys
+
+theorem valid_replicate_none (k : Nat) (t : List (Option Rat)) :
+    valid (List.replicate k (none : Option Rat) ++ t) = valid t := by
+  unfold valid
+  induction k with
+  | zero => simp
+  | succ k ih => simp [List.replicate_succ, ih]
+
+theorem valid_length_le (t : List (Option Rat)) : (valid t).length ≤ t.length := by
+  unfold valid; exact List.length_filterMap_le _ _
+
+/-- the series shifted by `l ≥ 0` has at most `len - l` valid elements -/
+theorem valid_vshift_le (xs : List (Option Rat)) (l : Nat) :
+    (valid (GenMap.vshift.run xs (Int.ofNat l) none)).length ≤ xs.length - l := by
+  unfold GenMap.vshift.run
+  simp only [Int.ofNat_eq_natCast, Int.natAbs_natCast, Option.getD_none, decide_eq_true_eq]
+  by_cases h : xs.length ≤ l
+  · simp only [h, if_true]
+    have : valid (List.replicate xs.length (none : Option Rat)) = [] := by
+      have := valid_replicate_none xs.length []
+      simpa [valid] using this
+    rw [this]; simp
+  · simp only [h, if_false]
+    by_cases hp : ((l : Int) > 0)
+    · simp only [hp, if_true]
+      rw [valid_replicate_none]
+      calc (valid (xs.take (xs.length - l))).length ≤ (xs.take (xs.length - l)).length := valid_length_le _
+        _ ≤ xs.length - l := by simp
+    · have hl : l = 0 := by omega
+      subst hl
+      simp only [hp, if_false, Int.natCast_zero, Int.lt_irrefl, Nat.sub_zero]
+      exact valid_length_le xs
+
+/-- a defined lag autocorrelation needs two pairwise-complete observations of the series and its
+shift: `corrSrc … lag mp = some q → lag + 2 ≤ len` -/
+theorem corrSrc_some (sqrt : Rat → Rat) (xs : List (Option Rat)) (l mp : Nat) (q : Rat)
+    (h : GenFin.half_life.corrSrc sqrt xs l mp = some q) : l + 2 ≤ xs.length := by
+  unfold GenFin.half_life.corrSrc at h
+  have hs := C11Gen.vcorr_spec sqrt xs (GenMap.vshift.run xs (Int.ofNat l) none) mp
+  by_contra hlt
+  have hfew : (C11.Spec.pairsValid xs (GenMap.vshift.run xs (Int.ofNat l) none)).length < max mp 2 := by
+    have h1 := pairsValid_le_valid xs (GenMap.vshift.run xs (Int.ofNat l) none)
+    have h2 := valid_vshift_le xs l
+    omega
+  have hnull : C11.Spec.vcorr mp xs (GenMap.vshift.run xs (Int.ofNat l) none) = .null := by
+    rw [← C11.vcorr_exact]; exact (C11.vcorr_null_iff mp xs _).mpr hfew
+  rw [hnull, h] at hs
+  simp [GenSim.AgreeW] at hs
+
+/-- **the oracle hypothesis holds for the code in the tree** -/
+theorem oracleOk_src (sqrt : Rat → Rat) (xs : List (Option Rat)) (mp : Nat) :
+    OracleOk (fun l => clsOf (GenFin.half_life.corrSrc sqrt xs l mp)) xs.length := by
+  intro l hl
+  simp only [] at hl
+  cases hc : GenFin.half_life.corrSrc sqrt xs l mp with
+  | none => rw [hc] at hl; simp [clsOf] at hl
+  | some q => exact corrSrc_some sqrt xs l mp q hc
+
+/-- **from source, no hypothesis**: `half_life` as regenerated — loops, guards, the
+`vcorr_pearson ∘ vshift` autocorrelation — terminates within `len + 1` iterations per loop, never
+underflows, and returns a lag in `0 ..= len - 1` that is `0` exactly for series shorter than two,
+for every series, every `min_periods` and every reading `sqrt` of the square root -/
+theorem half_life_from_source (sqrt : Rat → Rat) (xs : List (Option Rat)) (mp : Option Nat) :
+    ∃ r, GenFin.half_life.runSrc sqrt xs mp (xs.length + 1) = .ok r ∧ r ≤ xs.length - 1 ∧
+      (r = 0 ↔ xs.length < 2) := by
+  unfold GenFin.half_life.runSrc
+  exact half_life_ok_range (GenFin.half_life.corrSrc sqrt xs) xs.length mp (oracleOk_src sqrt xs _)
 
 /-! ## winsorize (tevec/src/map.rs), regenerated -/
 
